@@ -686,6 +686,8 @@ class GeneInfo:
         return self.reference_region[left_pos:right_pos+1]
 
     def set_reference_sequence(self, start, end, chr_record):
+        # 1-based window; a region that starts at the first base of the chromosome comes as 0 (0-based alignment start)
+        start = max(1, start)
         self.all_read_region_start = start
         self.all_read_region_end = end
         self.reference_region = \
